@@ -25,18 +25,19 @@ def cases(ctx):
     t = ctx.tier == "thorough"
     k = 0
     lens = list(range(0, (301 if t else 81))) + [255, 256, 4095, 4096, 40000]
-    for L in lens:
-        for mode, kl in MODES.items():
-            k += 1
-            if k % N != S:
-                continue
-            yield {"k": "rt", "mode": mode, "key": gen.rbytes(r, kl).hex(), "iv": gen.rbytes(r, 16).hex(), "msg": gen.rbytes(r, L).hex()}
+    for rep in range(12 if t else 1):
+        for L in lens:
+            for mode, kl in MODES.items():
+                k += 1
+                if k % N != S:
+                    continue
+                yield {"k": "rt", "mode": mode, "key": gen.rbytes(r, kl).hex(), "iv": gen.rbytes(r, 16).hex(), "msg": gen.rbytes(r, L).hex()}
     if S == 0:
         ctx.exhaustive.append("every message length 0..%d in each of the four modes" % (300 if t else 80))
     # CTR carries: low 64 bits end in ff..ff at every byte position, message long enough to cross it
     for pos in range(1, 9):
         for mode in ("128ctr", "256ctr"):
-            for rep in range(8 if t else 4):
+            for rep in range(40 if t else 4):
                 k += 1
                 if k % N != S:
                     continue
@@ -51,7 +52,7 @@ def cases(ctx):
     # CBC rejection cases
     for mode in ("128cbc", "256cbc"):
         for L in (0, 1, 15, 16, 17, 31, 32, 47):
-            for rep in range(6 if t else 2):
+            for rep in range(40 if t else 2):
                 k += 1
                 if k % N != S:
                     continue
